@@ -1115,10 +1115,30 @@ func (e *E) Read() {
 		e.readAll()
 	case 3: // FlattenedKeys / CompareConfigs: must terminate (C08) and not change anything
 		var keys []string
+		var d diff.Diff
 		e.R.MustComplete("FlattenedKeys", func() { keys = e.rootCfg.FlattenedKeys(e.opts...) })
-		e.R.MustComplete("CompareConfigs", func() { diff.CompareConfigs(e.rootCfg, e.rootCfg, e.opts...) })
-		e.R.Tracef("FlattenedKeys = %v", keys)
+		e.R.MustComplete("CompareConfigs", func() { d = diff.CompareConfigs(e.rootCfg, e.rootCfg, e.opts...) })
+		want, known := e.expectedFlat()
+		e.R.Tracef("FlattenedKeys = %v   [model: %v, comparable: %v]", keys, want, known)
 		e.R.Probe("varexp: FlattenedKeys / CompareConfigs on a config with references")
+		if known {
+			if strings.Join(keys, "\x00") != strings.Join(want, "\x00") {
+				e.R.FailD("flatkeys", "FlattenedKeys", map[string]string{"got": strings.Join(keys, ","), "want": strings.Join(want, ",")},
+					"FlattenedKeys = %v; following every reference that evaluates to a container and reporting everything else as a key of its own gives %v", keys, want)
+			}
+			uniq := map[string]bool{}
+			for _, k := range want {
+				uniq[k] = true
+			}
+			kept := map[string]bool{}
+			for _, k := range d[diff.Keep] {
+				kept[k] = true
+			}
+			if len(d[diff.Add]) > 0 || len(d[diff.Remove]) > 0 || len(kept) != len(uniq) {
+				e.R.FailD("flatkeys", "CompareConfigs", nil, "a config with references compared with itself: kept %v added %v removed %v; its keys are %v", d[diff.Keep], d[diff.Add], d[diff.Remove], want)
+			}
+			e.R.Probe("varexp: FlattenedKeys compared with the model")
+		}
 	case 4: // Has / CountField: must terminate; Has is true for a stored setting
 		var has bool
 		var err error
